@@ -4,8 +4,12 @@
 // This file contains comments only; it is compiled only under the build tag "verif".
 package templater
 
+// every entry of the result is a pattern (never nil: the fingerprint code dereferences each of them)
 //@ func ReplaceGlobs
 //@   sweep                                                          [C16]
+//@   nilable result
+//@   loop 1 invariant forall j {new[j]} :: 0 <= j && j < $i ==> new[j] != nil && allocated(new[j])                    [C16]
+//@   ensures forall j {result[j]} :: 0 <= j && j < len(result) ==> result[j] != nil                                    [C16]
 
 // Template expansion reads the variables in the cache and returns new values (trusted frames: text/template).
 //@ func Replace
@@ -16,8 +20,9 @@ package templater
 //@ func ReplaceWithExtra
 //@   modifies heap
 //@   preserves $RUNDATA
-//@   site maps.Clone#1 requires arg0 == cache.cacheMap                                                         [C02,C11]
-//@   site maps.Copy#1 requires arg0 != cache.cacheMap                                                          [C02,C11]
+//@   site maps.Clone#1 requires arg0 == cache.cacheMap                                                         [C02,C11,C14]
+//@   site maps.Copy#1 requires arg0 != cache.cacheMap                                                          [C02,C11,C14]
+//@   site maps.Copy#1 requires arg1 == extra     -- the extras (ITEM, KEY, EXIT_CODE) are laid OVER the variables: they win   [C02,C14]
 //@ func ReplaceVar
 //@   trusted
 //@   modifies github.com/go-task/task/v3/internal/templater.*
